@@ -42,6 +42,8 @@ class Gen:
         self.focus_acc = None
         self.bare = 0.0  # probability that a setup/launch statement is a bare launch on a visible state instead
         self.callee = False  # the module DEFINES a function @h that programs the accelerators; @f calls it without annotation
+        self.nested = 0.0  # probability that a loop body is "setup/launch/await of one accelerator, then an inner loop of the same form"
+        self._plan = []
         self.ifinput = 0.0  # probability that one field of a setup is computed by an scf.if from a local and an outer computed value
 
     def loop_bounds(self):
@@ -167,11 +169,19 @@ class Gen:
             la = f'{ind}{t} = "accfg.launch"({s}) <{{param_names = [], accelerator = "{acc}"}}> : ({st_ty(acc)}) -> !accfg.token<"{acc}">'
         return [la, f'{ind}"accfg.await"({t}) : (!accfg.token<"{acc}">) -> ()']
 
+    def loop_body(self, vals, depth, ind, cur):
+        if self.nested and self.r.random() < self.nested:
+            # rotation candidates at several nesting levels whose setups read values of the enclosing loop bodies
+            self._plan = [0.1] + ([0.9] if depth > 0 else []) + ([self.r.random()] if self.r.random() < 0.4 else [])
+            return self.block(vals, depth, ind, len(self._plan), self._child(cur))
+        return self.block(vals, depth, ind, self.r.randint(1, 4), self._child(cur))
+
     def _block(self, vals, depth, ind, nst, cur):
         out = []
         vals = list(vals)
+        plan, self._plan = self._plan, []
         for _ in range(nst):
-            k = self.r.random()
+            k = plan.pop(0) if plan else self.r.random()
             if self.focus_acc is not None and depth == self.depth:
                 self.force_scope = None
                 # top level of a focused program: setup/launch pairs of the focus accelerator X separated by conditionals / loops
@@ -248,7 +258,7 @@ class Gen:
                     out.append(f"{ind}{', '.join(rs)} = scf.for {i} = {lbn} to {ubn} step {stn} iter_args({ia}) -> ({tys}) {{")
                     out.append(f"{ind}  {ii} = arith.index_cast {i} : index to i32")
                     inner = vals + [ii] + ps + ps
-                    out += self.block(inner, depth - 1, ind + "  ", self.r.randint(1, 4), self._child(cur))
+                    out += self.loop_body(inner, depth - 1, ind + "  ", cur)
                     nxt = []
                     for p in ps:
                         v = self.fresh()
@@ -260,7 +270,7 @@ class Gen:
                 else:
                     out.append(f"{ind}scf.for {i} = {lbn} to {ubn} step {stn} {{")
                     out.append(f"{ind}  {ii} = arith.index_cast {i} : index to i32")
-                    out += self.block(vals + [ii], depth - 1, ind + "  ", self.r.randint(1, 4), self._child(cur))
+                    out += self.loop_body(vals + [ii, ii], depth - 1, ind + "  ", cur)
                     out.append(f"{ind}}}")
                 for _k in [k for k in cur if not k.startswith('_')]:
                     del cur[_k]
